@@ -356,6 +356,8 @@ def run(ctx):
     kinds_rep = {"generic": 2} if not thorough else {}
     NTOL = Fraction(1, 10**9)
 
+    import time as _t
+    _t0 = _t.time()
     se_cases, se_meta, lhf_cases, lhq_cases, lh_meta, ve_cases, ve_meta, lhf_meta = [], [], [], [], [], [], [], []
     game_list = []
     for (m, n) in shapes:
@@ -373,7 +375,7 @@ def run(ctx):
     # degenerate games with payoffs k/3, k/7, k/9 (not binary fractions: rounding noise in exactly-zero tableau entries)
     for d, An, Bn, _pivots in LH_NOISE_CORPUS:
         game_list.append(("kd_corpus", np.array(An, dtype=float) / d, np.array(Bn, dtype=float) / d))
-    for rep in range(400 if thorough else 40):
+    for rep in range(400 if thorough else 24):
         game_list.append(("kd_degenerate",) + gen_kd_degenerate(rng, smax))
     for kind, A, B in game_list:
             if True:
@@ -486,6 +488,7 @@ def run(ctx):
                     lhq_cases.append(tup("%d%%nat" % m, "%d%%nat" % n, qlist2(Aq), qlist2(fr_mat(Bt)),
                                          clist(runs_q, "nat * Z * option Z * (list Q * list Q) * bool * Z * nat")))
                     lh_meta.append(desc)
+    ctx.count("time_s:bimatrix python phase", int(_t.time() - _t0)); _t0 = _t.time()
     bad = ctx.coq_check("support_enumeration", IMPORTS, "nat * nat * list (list Q) * list (list Q) * list (list Q * list Q)", "se_ok", se_cases,
                         chunk=max(1, len(se_cases) // 14), preamble=PRE)
     for i in bad:
@@ -516,6 +519,193 @@ def run(ctx):
     for i in bad:
         ctx.mismatch("C05.Model.vertex_enumeration (bit masks, xor test, mixed actions from Qhull's facets; PrimFloat, bit-exact) vs vertex_enumeration", ve_meta[i])
 
+    ctx.count("time_s:bimatrix coq phase", int(_t.time() - _t0)); _t0 = _t.time()
+    hardening_lh = []
+    # ---------------------------------------------------------------- hardening: dress, options, state, generators, errors (oracle only)
+    from quantecon.game_theory.support_enumeration import support_enumeration_gen
+    from quantecon.game_theory.vertex_enumeration import vertex_enumeration_gen
+
+    def ne_list(nes):
+        return [[np.asarray(x, dtype=float).tolist(), np.asarray(y, dtype=float).tolist()] for x, y in nes]
+
+    def hfail(kind, what, info, got=None, exp=None):
+        ctx.fail(kind, what, info, got, exp)
+    hgames = [(2, 2), (3, 2), (1, 3), (3, 1), (3, 3)] + ([(2, 4), (4, 4), (5, 2), (1, 1), (2, 5)] if thorough else [])
+    for (m, n) in hgames:
+        A = np.array([[rng.randrange(-3, 4) for _ in range(n)] for _ in range(m)], dtype=float)
+        B = np.array([[rng.randrange(-3, 4) for _ in range(n)] for _ in range(m)], dtype=float)
+        desc = {"A": A, "B": B}
+        g = NormalFormGame((Player(A.copy()), Player(B.T.copy())))
+        try:
+            ref_lh = {ip: lemke_howson(g, init_pivot=ip, full_output=True) for ip in range(m + n)}
+            ref_se = ne_list(support_enumeration(g))
+            ref_ve = ne_list(vertex_enumeration(g)) if m >= 2 and n >= 2 else None
+            ref_pn = pure_nash_brute(g)
+        except Exception as e:
+            hfail("raises", "a solver raised on a valid game: %r" % (e,), desc, repr(e))
+            continue
+        # ---- class 1: payoffs in other containers / dtypes / layouts (Player stores a C-ordered array of the dtype given)
+        forms = {"list": lambda M: M.tolist(), "int64": lambda M: M.astype(np.int64), "F-order": lambda M: np.asfortranarray(M),
+                 "view": lambda M: np.stack([M, M + 7.0], axis=-1)[..., 0], "transposed-view": lambda M: np.ascontiguousarray(M.T).T}
+        if thorough:
+            forms["float32"] = lambda M: M.astype(np.float32)
+            forms["int32"] = lambda M: M.astype(np.int32)
+        for how, f in forms.items():
+            ctx.count("dress:payoffs:%s" % how)
+            try:
+                srcA, srcB = f(A), f(np.ascontiguousarray(B.T))
+                snapA, snapB = np.array(srcA, dtype=float), np.array(srcB, dtype=float)
+                g2 = NormalFormGame((Player(srcA), Player(srcB)))
+                got_lh = [lemke_howson(g2, init_pivot=ip) for ip in range(m + n)]
+                got_se = ne_list(support_enumeration(g2))
+                got_pn = pure_nash_brute(g2)
+                got_ve = ne_list(vertex_enumeration(g2)) if ref_ve is not None and how in ("list", "F-order", "view") else ref_ve
+            except Exception as e:
+                hfail("raises", "a solver raised when the payoffs are given as %s: %r" % (how, e), dict(desc, dress=how), repr(e))
+                continue
+            ctx.case(("dress_bimatrix", m, n, how, repr(A.tolist()), repr(B.tolist())), nontrivial=(m >= 2 and n >= 2))
+            tol32 = 1e-5 if how == "float32" else 0.0
+            def same(p, q):
+                return len(p) == len(q) and all(np.allclose(a, b, atol=tol32, rtol=0) for x, y in zip(p, q) for a, b in zip(x, y))
+            if not same(ne_list(got_lh), ne_list([ref_lh[ip][0] for ip in range(m + n)])) or not same(got_se, ref_se) or got_pn != ref_pn or (ref_ve is not None and not same(got_ve, ref_ve)):
+                hfail("dress_payoffs", "a solver answers differently when the same payoffs are given as %s" % how, dict(desc, dress=how), [ne_list(got_lh), got_se, got_pn], [ref_se, ref_pn])
+            if not (np.array_equal(np.array(srcA, dtype=float), snapA) and np.array_equal(np.array(srcB, dtype=float), snapB)):
+                hfail("mutation", "a solver changed the caller's payoff arrays (%s)" % how, dict(desc, dress=how))
+        if not (np.array_equal(g.payoff_arrays[0], A) and np.array_equal(g.payoff_arrays[1], B.T)):
+            hfail("mutation", "a solver changed the payoff arrays stored in the game", desc)
+        # ---- classes 1+4: forms of init_pivot / max_iter / capping / full_output
+        for ip in range(m + n):
+            ne0, res0 = ref_lh[ip]
+            calls = {"init_pivot np.int64": lambda: lemke_howson(g, np.int64(ip)), "init_pivot np.int32": lambda: lemke_howson(g, init_pivot=np.int32(ip)),
+                     "init_pivot np.intp": lambda: lemke_howson(g, init_pivot=np.intp(ip)), "init_pivot np.uint8": lambda: lemke_howson(g, init_pivot=np.uint8(ip)),
+                     "explicit defaults": lambda: lemke_howson(g, ip, 10**6, None, False), "capping=None keyword": lambda: lemke_howson(g, init_pivot=ip, capping=None),
+                     "max_iter np.int64": lambda: lemke_howson(g, init_pivot=ip, max_iter=np.int64(10**6)), "full_output=0": lambda: lemke_howson(g, init_pivot=ip, full_output=0),
+                     "full_output=True": lambda: lemke_howson(g, init_pivot=ip, full_output=True)[0], "capping=10**6": lambda: lemke_howson(g, init_pivot=ip, capping=10**6),
+                     "capping np.int64(10**6)": lambda: lemke_howson(g, init_pivot=ip, capping=np.int64(10**6))}
+            if ip == 0:
+                calls["init_pivot omitted"] = lambda: lemke_howson(g)
+            for label, f in calls.items():
+                ctx.count("optional:lemke_howson:%s" % label.split(" ")[0])
+                try:
+                    ne = f()
+                    okk = len(ne) == 2 and np.array_equal(ne[0], ne0[0]) and np.array_equal(ne[1], ne0[1])
+                except Exception as e:
+                    ne, okk = repr(e), False
+                if not okk:
+                    hfail("optional_argument", "lemke_howson(%s) differs from the plain call with the same initial pivot" % label, dict(desc, init_pivot=ip, form=label), repr(ne)[:300], ne_list([ne0]))
+        # capping = 0 (falsy but valid: every initial pivot gets one step, the last run is uncapped) and NumPy capping values
+        cap_cases, cap_meta = [], []
+        for ip in range(m + n):
+            for cap in (0, np.int64(0), np.int64(2), 1):
+                ctx.count("optional:lemke_howson:capping=%r" % (cap,))
+                try:
+                    ne, res = lemke_howson(g, init_pivot=ip, capping=cap, full_output=True)
+                    if not well_formed([ne], m, n):
+                        raise ValueError("malformed output")
+                except Exception as e:
+                    hfail("raises", "lemke_howson(capping=%r) raised %r" % (cap, e), dict(desc, init_pivot=ip, capping=int(cap)), repr(e))
+                    continue
+                ctx.case(("lh_capping_forms", m, n, ip, repr(cap), repr(A.tolist()), repr(B.tolist())), nontrivial=(m >= 2 and n >= 2))
+                if res.converged:
+                    x, y = rat_profile(ne)
+                    if nash_defect(fr_mat(A), fr_mat(B), x, y) > NTOL * 10:
+                        hfail("not_nash", "lemke_howson(capping=%r) reports convergence on a profile that is not a Nash equilibrium" % (cap,), dict(desc, solver="lemke_howson", init_pivot=ip, capping=int(cap)), ne_list([ne]))
+                hardening_lh.append((m, n, A, B, ip, int(cap), ne, bool(res.converged), int(res.num_iter), int(res.init)))
+        # ---- class 2: one game object modified between solver calls / several games alive; compare with a FRESH game
+        gA = NormalFormGame((Player(A.copy()), Player(B.T.copy())))
+        A2 = A + np.array([[rng.randrange(0, 2) for _ in range(n)] for _ in range(m)])
+        gB = NormalFormGame((Player(A2.copy()), Player(B.T.copy())))
+        curA, curB = A.copy(), B.copy()
+        for step in range(3):
+            a = (rng.randrange(m), rng.randrange(n))
+            v = (float(rng.randrange(-3, 4)), float(rng.randrange(-3, 4)))
+            ctx.count("seq:setitem_between_solver_calls")
+            try:
+                support_enumeration(gB); lemke_howson(gB)           # another game is used in between
+                gA[a] = v
+                curA[a], curB[a] = v
+                fresh = NormalFormGame((Player(curA.copy()), Player(curB.T.copy())))
+                for name, f in (("lemke_howson", lambda G: ne_list([lemke_howson(G, init_pivot=step % (m + n))])), ("support_enumeration", lambda G: ne_list(support_enumeration(G))),
+                                ("pure_nash_brute", lambda G: pure_nash_brute(G))) + ((("vertex_enumeration", lambda G: ne_list(vertex_enumeration(G))),) if m >= 2 and n >= 2 else ()):
+                    r1, r2 = f(gA), f(fresh)
+                    if r1 != r2:
+                        hfail("stale_state", "%s on a game modified by __setitem__ differs from the same solver on a fresh game with the current payoffs" % name,
+                              {"A": curA, "B": curB, "solver": name, "modified_profile": list(a)}, r1, r2)
+            except Exception as e:
+                if "Qhull" not in type(e).__name__:
+                    hfail("raises", "a solver raised on a modified game: %r" % (e,), {"A": curA, "B": curB}, repr(e))
+        # ---- generators consumed partially, restarted, interleaved; yielded arrays must not be reused buffers
+        for gname, gen_f, ref in (("support_enumeration_gen", support_enumeration_gen, ref_se),) + ((("vertex_enumeration_gen", vertex_enumeration_gen, ref_ve),) if ref_ve is not None else ()):
+            ctx.count("seq:generator:%s" % gname)
+            try:
+                it1 = gen_f(g)
+                first = [ne_list([next(it1)])[0]] if ref else []
+                it2 = gen_f(gB)                                  # a second generator on another game, interleaved
+                other_first = next(it2, None)
+                rest = ne_list(list(it1))
+                again = ne_list(list(gen_f(g)))
+                copied = []
+                live = []
+                for ne in gen_f(g):
+                    copied.append([ne[0].tolist(), ne[1].tolist()])
+                    live.append(ne)
+                okg = (first + rest == ref) and again == ref and copied == ref and ne_list(live) == ref
+            except Exception as e:
+                okg, first, rest, again = False, repr(e), None, None
+            if not okg:
+                hfail("generator_state", "%s: partial consumption / restart / interleaving / keeping the yielded arrays gives a different list than the one-shot call" % gname,
+                      dict(desc, solver=gname), [first, rest, again], ref)
+        # ---- pure_nash_brute: tol omitted / None / default / 0
+        pres = [pure_nash_brute(g), pure_nash_brute(g, None), pure_nash_brute(g, tol=None), pure_nash_brute(g, tol=g.players[0].tol), pure_nash_brute(g, tol=0), pure_nash_brute(g, tol=0.0)]
+        ctx.count("optional:pure_nash_brute:tol", len(pres))
+        if any(r != pres[0] for r in pres[1:]):      # integer payoffs: tolerances below 1 cannot change the answer
+            hfail("optional_argument", "pure_nash_brute: tol omitted / None / default / 0 disagree on an integer game", desc, pres)
+    # ---- one-action players and one-player games for pure_nash_brute
+    for nums in [(1,), (3,), (1, 3), (3, 1, 2), (1, 1)]:
+        N = len(nums)
+        data = np.array([rng.randrange(-2, 3) for _ in range(int(np.prod(nums)) * N)]).reshape(tuple(nums) + (N,))
+        ctx.count("degenerate:pure_nash_brute:%s" % ("one-player" if N == 1 else "one-action player"))
+        try:
+            out = [tuple(int(v) for v in a) for a in pure_nash_brute(NormalFormGame(data))]
+        except Exception as e:
+            hfail("raises", "pure_nash_brute raised on a game with a single player / single action: %r" % (e,), {"payoff_profile_array": data}, repr(e))
+            continue
+        exp = [a for a in np.ndindex(*nums) if all(data[a + (i,)] >= max(data[a[:i] + (k,) + a[i + 1:] + (i,)] for k in range(nums[i])) - 1e-8 for i in range(N))]
+        if out != [tuple(int(v) for v in a) for a in exp]:
+            hfail("pure_nash_brute", "pure_nash_brute is wrong on a game with a single player / single action", {"payoff_profile_array": data, "tol": None}, out, exp)
+    # ---- class 6: documented errors
+    g22 = NormalFormGame((Player(np.eye(2)), Player(np.eye(2))))
+    g3 = NormalFormGame(np.zeros((2, 2, 2, 3)))
+    for label, excs, fn in [
+            ("lemke_howson(init_pivot=m+n)", (ValueError,), lambda: lemke_howson(g22, init_pivot=4)),
+            ("lemke_howson(init_pivot=-1)", (ValueError,), lambda: lemke_howson(g22, init_pivot=-1)),
+            ("lemke_howson(init_pivot=1.0)", (TypeError,), lambda: lemke_howson(g22, init_pivot=1.0)),
+            ("lemke_howson(3-player game)", (NotImplementedError,), lambda: lemke_howson(g3)),
+            ("lemke_howson(not a game)", (TypeError,), lambda: lemke_howson(np.eye(2))),
+            ("support_enumeration(3-player game)", (NotImplementedError,), lambda: support_enumeration(g3)),
+            ("support_enumeration(not a game)", (TypeError,), lambda: support_enumeration(np.eye(2))),
+            ("vertex_enumeration(3-player game)", (NotImplementedError,), lambda: vertex_enumeration(g3)),
+            ("vertex_enumeration(not a game)", (TypeError,), lambda: vertex_enumeration(np.eye(2)))]:
+        ctx.count("expected_error:" + label)
+        try:
+            r = fn()
+            hfail("missing_exception", "%s did not raise %s" % (label, excs[0].__name__), {"call": label}, repr(r)[:200])
+        except excs:
+            pass
+        except Exception as e:
+            hfail("wrong_exception", "%s raised %r instead of %s" % (label, e, excs[0].__name__), {"call": label}, repr(e))
+    # capping forms against the float model (bit-exact)
+    hc, hm = [], []
+    for (m, n, A, B, ip, cap, ne, conv, ni, used) in hardening_lh:
+        hc.append(tup("%d%%nat" % m, "%d%%nat" % n, flist2(A.tolist()), flist2(B.T.tolist()),
+                      clist([tup("%d%%nat" % ip, zl(10**6), "(Some %s)" % zl(cap), pairf(ne), blit(conv), zl(ni), "%d%%nat" % used)], "nat * Z * option Z * (list float * list float) * bool * Z * nat")))
+        hm.append({"A": A, "B": B, "init_pivot": ip, "capping": cap})
+    bad = ctx.coq_check("lemke_howson_capping_forms", IMPORTS, "nat * nat * list (list float) * list (list float) * list (nat * Z * option Z * (list float * list float) * bool * Z * nat)",
+                        "lhf_ok", hc, chunk=max(1, len(hc) // 10), preamble=PRE)
+    for i in bad:
+        ctx.mismatch("C05.Model.lemke_howson (PrimFloat) vs lemke_howson with capping=0 / NumPy integer capping", hm[i])
+
+    ctx.count("time_s:hardening phase", int(_t.time() - _t0)); _t0 = _t.time()
     # ---------------------------------------------------------------- pure equilibria of N-player games
     pn_cases, pn_meta = [], []
     nshapes = [(2,), (2, 2), (3, 2), (2, 3), (3, 3), (4, 2), (2, 2, 2), (2, 3, 2), (3, 2, 3), (2, 2, 2, 2), (2, 3, 2, 2)]
